@@ -151,7 +151,7 @@ impl Check for C07 {
     fn cases(&self, tier: Tier) -> u64 {
         match tier {
             Tier::Quick => 8_000,
-            Tier::Thorough => 60_000,
+            Tier::Thorough => 150_000,
         }
     }
     fn langs(&self) -> Vec<&'static str> {
